@@ -15,7 +15,6 @@ import (
 	"github.com/prometheus/prometheus/promql"
 	"github.com/prometheus/prometheus/promql/parser"
 
-	"github.com/thanos-community/promql-engine/execution"
 	"github.com/thanos-community/promql-engine/logicalplan"
 )
 
@@ -41,6 +40,26 @@ func mergeDuplicateSeries(c Canon) (Canon, bool, bool) {
 		out.Series = append(out.Series, CSeries{Labels: s.Labels, Key: s.Key, Points: append([]CPoint(nil), s.Points...)})
 	}
 	return out, had, true
+}
+
+// rootRegroups reports whether the query's outermost operator is an aggregation that forms its output
+// label sets itself (everything but topk/bottomk): its result has pairwise distinct label sets in any
+// engine, whatever happens below, so duplicates in it are not the recorded findings about operators
+// that drop the metric name (F22a/F22b).
+func rootRegroups(query string) bool {
+	e, err := parser.ParseExpr(query)
+	if err != nil {
+		return false
+	}
+	for {
+		p, ok := e.(*parser.ParenExpr)
+		if !ok {
+			break
+		}
+		e = p.Expr
+	}
+	a, ok := e.(*parser.AggregateExpr)
+	return ok && a.Op != parser.TOPK && a.Op != parser.BOTTOMK
 }
 
 func hasDuplicateSeries(c Canon) bool {
@@ -203,7 +222,7 @@ func engineSeries(c *Case, qs string) (out []labels.Labels) {
 		lb = 5 * time.Minute
 	}
 	lplan := logicalplan.New(expr, start, end).Optimize(logicalplan.NoOptimizers)
-	op, err := execution.New(lplan.Expr(), NewStore(c.Data), start, end, step, lb)
+	op, err := newOperatorTree(lplan.Expr(), NewStore(c.Data), start, end, step, lb)
 	if err != nil {
 		return nil
 	}
@@ -229,7 +248,7 @@ func classifyRefFailure(c *Case, impl, ref Canon) []string {
 	if ref.Kind == "error" && (ref.Err == "same-labelset" || (ref.Err == "multiple-matches" && strings.Contains(ref.ErrMsg, "grouping labels must ensure unique matches"))) && impl.Kind != "error" {
 		tags = append(tags, "same-labelset-not-detected")
 	}
-	if impl.Kind != "error" && hasDuplicateSeries(impl) {
+	if impl.Kind != "error" && hasDuplicateSeries(impl) && !rootRegroups(c.Query) {
 		if merged, had, ok := mergeDuplicateSeries(impl); had && ok && diffCanon(merged, ref, false) == "" {
 			tags = append(tags, "duplicate-series-after-name-drop")
 		} else {
